@@ -35,6 +35,13 @@ type linForm struct {
 func lfConst(v int64) linForm { return linForm{coef: map[string]*big.Int{}, c: big.NewInt(v)} }
 
 func (a linForm) add(b linForm, sign int64) linForm {
+	// the zero linForm (an absent slice bound) is the constant 0
+	if a.c == nil {
+		a.c = new(big.Int)
+	}
+	if b.c == nil {
+		b.c = new(big.Int)
+	}
 	r := linForm{coef: map[string]*big.Int{}, c: new(big.Int).Set(a.c)}
 	for k, v := range a.coef {
 		r.coef[k] = new(big.Int).Set(v)
@@ -54,6 +61,9 @@ func (a linForm) add(b linForm, sign int64) linForm {
 }
 
 func (a linForm) scale(m *big.Int) linForm {
+	if a.c == nil {
+		a.c = new(big.Int)
+	}
 	r := linForm{coef: map[string]*big.Int{}, c: new(big.Int).Mul(a.c, m)}
 	for k, v := range a.coef {
 		if p := new(big.Int).Mul(v, m); p.Sign() != 0 {
@@ -63,7 +73,12 @@ func (a linForm) scale(m *big.Int) linForm {
 	return r
 }
 
-func (a linForm) isConst() (*big.Int, bool) { return a.c, len(a.coef) == 0 }
+func (a linForm) isConst() (*big.Int, bool) {
+	if a.c == nil {
+		return new(big.Int), len(a.coef) == 0
+	}
+	return a.c, len(a.coef) == 0
+}
 
 func (a linForm) String() string {
 	var ks []string
@@ -74,6 +89,9 @@ func (a linForm) String() string {
 	var parts []string
 	for _, k := range ks {
 		parts = append(parts, a.coef[k].String()+"*"+k)
+	}
+	if a.c == nil {
+		a.c = new(big.Int)
 	}
 	if a.c.Sign() != 0 || len(parts) == 0 {
 		parts = append(parts, a.c.String())
